@@ -789,6 +789,110 @@ func additiveReader(fd *ast.FuncDecl) (string, bool) {
 
 type fprog struct{ fn, term string }
 
+// ---- readers that are kept / re-pointed (a decode may only see its own input)
+
+// bufferWriters: functions of package io (methods of DataInputX, functions returning *DataInputX) that
+// store into a reader's `buffer` field or call a method of it that puts bytes in / moves its read position
+// back; keptReaders: struct fields, package-level variables and type assertions of type DataInputX
+// outside the type's own declaration (a reader that outlives one decode: pooled, cached)
+var bufferWriters, keptReaders []string
+
+var bufferMutators = map[string]bool{"Write": true, "WriteByte": true, "WriteString": true, "WriteRune": true, "ReadFrom": true,
+	"Reset": true, "Truncate": true, "Grow": true, "UnreadByte": true, "UnreadRune": true}
+
+func isDataInputX(e ast.Expr) bool {
+	switch x := e.(type) {
+	case *ast.StarExpr:
+		return isDataInputX(x.X)
+	case *ast.Ident:
+		return x.Name == "DataInputX"
+	case *ast.SelectorExpr:
+		return x.Sel.Name == "DataInputX"
+	case *ast.ArrayType:
+		return isDataInputX(x.Elt)
+	case *ast.MapType:
+		return isDataInputX(x.Value)
+	}
+	return false
+}
+
+func isBufferSel(e ast.Expr) bool {
+	s, ok := e.(*ast.SelectorExpr)
+	return ok && s.Sel.Name == "buffer"
+}
+
+func readerFunc(pkg string, fd *ast.FuncDecl) bool {
+	if pkg != "io" {
+		return false
+	}
+	if fd.Recv != nil && len(fd.Recv.List) == 1 && isDataInputX(fd.Recv.List[0].Type) {
+		return true
+	}
+	if fd.Type.Results != nil {
+		for _, r := range fd.Type.Results.List {
+			if isDataInputX(r.Type) {
+				return true
+			}
+		}
+	}
+	return false
+}
+
+func writesBuffer(fd *ast.FuncDecl) bool {
+	found := false
+	ast.Inspect(fd.Body, func(n ast.Node) bool {
+		switch x := n.(type) {
+		case *ast.AssignStmt:
+			for _, l := range x.Lhs {
+				if isBufferSel(l) {
+					found = true
+				}
+			}
+		case *ast.CallExpr:
+			if s, ok := x.Fun.(*ast.SelectorExpr); ok && isBufferSel(s.X) && bufferMutators[s.Sel.Name] {
+				found = true
+			}
+		case *ast.UnaryExpr: // &in.buffer handed out
+			if x.Op == token.AND && isBufferSel(x.X) {
+				found = true
+			}
+		}
+		return true
+	})
+	return found
+}
+
+func keptIn(rel string, f *ast.File) {
+	for _, decl := range f.Decls {
+		if gd, ok := decl.(*ast.GenDecl); ok {
+			for _, sp := range gd.Specs {
+				switch x := sp.(type) {
+				case *ast.ValueSpec:
+					if x.Type != nil && isDataInputX(x.Type) {
+						for _, n := range x.Names {
+							keptReaders = append(keptReaders, rel+":var "+n.Name)
+						}
+					}
+				case *ast.TypeSpec:
+					if st, ok := x.Type.(*ast.StructType); ok {
+						for _, fl := range st.Fields.List {
+							if isDataInputX(fl.Type) {
+								keptReaders = append(keptReaders, rel+":field "+x.Name.Name)
+							}
+						}
+					}
+				}
+			}
+		}
+	}
+	ast.Inspect(f, func(n ast.Node) bool {
+		if ta, ok := n.(*ast.TypeAssertExpr); ok && ta.Type != nil && isDataInputX(ta.Type) {
+			keptReaders = append(keptReaders, rel+":assert")
+		}
+		return true
+	})
+}
+
 var progs []fprog
 
 func lit(s string) string { return "\"" + strings.ReplaceAll(s, "\"", "\\\"") + "\"" }
@@ -813,12 +917,16 @@ func main() {
 				return err
 			}
 			rel, _ := filepath.Rel(*repo, path)
+			keptIn(rel, f)
 			for _, decl := range f.Decls {
 				fd, ok := decl.(*ast.FuncDecl)
 				if !ok || fd.Body == nil {
 					continue
 				}
 				name := funcName(f.Name.Name, fd)
+				if readerFunc(f.Name.Name, fd) && writesBuffer(fd) {
+					bufferWriters = append(bufferWriters, name)
+				}
 				if name == "io.(*DataInputX).ReadBytes" {
 					readBytesFact(fd)
 				}
@@ -910,6 +1018,19 @@ func main() {
 		b.WriteString(lit(a))
 	}
 	b.WriteString("]\n\n")
+	strList := func(doc, name string, xs []string) {
+		sort.Strings(xs)
+		b.WriteString(doc + "\ndef " + name + " : List String := [")
+		for i, a := range xs {
+			if i > 0 {
+				b.WriteString(", ")
+			}
+			b.WriteString(lit(a))
+		}
+		b.WriteString("]\n\n")
+	}
+	strList("/-- functions of package io (methods of DataInputX, functions returning one) that store into a reader's\n    `buffer` or call a method of it that adds bytes / moves the read position back -/", "bufferWriters", bufferWriters)
+	strList("/-- struct fields, package-level variables and type assertions of type DataInputX (a reader kept beyond\n    one decode) in io, lang/**, util/hll -/", "keptReaders", keptReaders)
 	fmt.Fprintf(&b, "/-- `DataInputX.ReadBytes` compares its size with the buffered bytes (and panics) before `make` -/\ndef readBytesChecksBeforeMake : Bool := %v\n\nend Gen.AllocSites\n", readBytesChecked)
 	if *out == "" {
 		fmt.Print(b.String())
